@@ -2,6 +2,7 @@
   Helper lemmas for the machine-arithmetic model (Model/Arith.lean), C12.
 -/
 import LtVerif.Model.Arith
+import LtVerif.Model.ArithRange
 import LtVerif.Proofs.Range
 namespace LtVerif
 namespace Arith
